@@ -345,7 +345,26 @@ fn prepare(scen: &Scen, keys: &[KeyEnt], case: &Value) -> Result<Prep, String> {
 			needles.push(("sender address text".into(), k.text.clone().into_bytes()));
 			needles.push(("sender ed25519 key".into(), k.addr.pub_key.as_bytes().to_vec()));
 		}
+		// the JSON form of the encrypted slatepack as its creator holds it (what a file written with
+		// as_bin = false contains, and what Display prints)
+		let json_form: Vec<u8> = if let Some((w, j)) = sender_wj {
+			let sp = Slatepacker::new(SlatepackerArgs {
+				sender: Some(keys[kid(w, j)].addr.clone()),
+				recipients: raddrs.clone(),
+				dec_key: None,
+			})
+			.create_slatepack(&sl);
+			match sp {
+				Ok(sp) => serde_json::to_string(&sp).unwrap_or_default().into_bytes(),
+				Err(_) => vec![],
+			}
+		} else {
+			vec![]
+		};
 		for (name, n) in needles.iter() {
+			if find(&json_form, n) {
+				fails.push(format!("{} occurs in clear in the JSON form of the encrypted slatepack [json-form-shows-sender]", name));
+			}
 			if find(&bin, n) {
 				fails.push(format!("{} occurs in clear in the binary encrypted slatepack", name));
 			}
